@@ -10,7 +10,7 @@ from z3 import *
 import z3 as _z3
 from pyvc.core import *
 
-PROPS = ['C10', 'C16', 'C01', 'C06']
+PROPS = ['C10', 'C16', 'C01', 'C06', 'C09', 'C08']
 REL = 'taskiq/abc/broker.py'
 TRUSTED = ["registered tasks are truthy objects (AsyncTaskiqDecoratedTask defines neither __bool__ nor __len__)", "dict(...)/{**a, **b}: later entries win; list.append appends at the end"]
 
@@ -83,7 +83,7 @@ def generate(src):
     s0 = mk(); G0, L0, GH, LH = s0.heap.dval[glob_a], s0.heap.dval[loc_a], s0.heap.dhas[glob_a], s0.heap.dhas[loc_a]
     def g_ret(s, v):
         if not isinstance(v, PyDict): oblige(s, "get_all_tasks/post: returns a dict  [C16]", BoolVal(False)); return
-        oblige(s, "get_all_tasks/post: exactly the names registered globally or on this broker; for a name in both, the broker's OWN task  [C16]",
+        oblige(s, "get_all_tasks/post: exactly the names registered globally or on this broker; for a name in both, the broker's OWN task (the receiver prepares signatures from this listing and executes what find_task returns: both must name the same function)  [C16/C08]",
                ForAll([key], And(s.heap.dhas[v.addr][key] == Or(GH[key], LH[key]), Implies(Or(GH[key], LH[key]), s.heap.dval[v.addr][key] == If(LH[key], L0[key], G0[key])))))
         oblige(s, "get_all_tasks/frame: the registries themselves are not modified  [C16]", And(s.heap.dval[glob_a] == G0, s.heap.dval[loc_a] == L0, s.heap.dhas[glob_a] == GH, s.heap.dhas[loc_a] == LH))
         reach(s, "get_all_tasks/reach@return")
@@ -94,4 +94,56 @@ def generate(src):
                to_val(v) == If(LH[name], L0[name], If(GH[name], G0[name], Val.none)))
         reach(s, "find_task/reach@return")
     exd.run(src.func(REL, 'AsyncBroker.find_task'), s1, f_ret, lambda s, x: oblige(s, "find_task/raises: nothing  [C01]", BoolVal(False)))
+    # ---------------- AsyncBroker.task / register_task: the labels declared on a task reach the decorated task object, in every calling form  [C09]
+    # (call-site obligations: the nested closures are not executed; each expression that hands the labels on is evaluated symbolically in the
+    #  environment of its function, and a name that is re-bound in that function is unknown at the call - approximation, left to the native driver)
+    la = Int('declared_labels'); lbl = PyDict(la)
+    def same_labels(s, v): return And(isinstance(v, PyDict), ForAll([key], And(s.heap.dhas[v.addr][key] == s.heap.dhas[la][key], Implies(s.heap.dhas[la][key], s.heap.dval[v.addr][key] == s.heap.dval[la][key])))) if isinstance(v, PyDict) else BoolVal(False)
+    def own_nodes(fd_):          # nodes of the function itself, not of the functions nested in it
+        out, todo = [], list(fd_.body)
+        while todo:
+            n_ = todo.pop()
+            if isinstance(n_, (ast.FunctionDef, ast.AsyncFunctionDef, ast.Lambda)): continue
+            out.append(n_); todo.extend(ast.iter_child_nodes(n_))
+        return out
+    def env_for(fd_, names, st_):
+        rebound = {n_.id for n_ in own_nodes(fd_) if isinstance(n_, ast.Name) and isinstance(n_.ctx, ast.Store)} | {x for n_ in own_nodes(fd_) if isinstance(n_, ast.Nonlocal) for x in n_.names}
+        for nm, v in names.items():
+            if nm in rebound: st_.env[nm] = fresh(nm + '_rebound'); approx(st_, f"{fd_.name}: `{nm}` is re-bound in the body")
+            else: st_.env[nm] = v
+    exl = Exec({})
+    tfd = src.func(REL, 'AsyncBroker.task')
+    mk_defs = [n_ for n_ in tfd.body if isinstance(n_, ast.FunctionDef)]
+    rets = [n_ for n_ in own_nodes(tfd) if isinstance(n_, ast.Return)]
+    if len(mk_defs) != 1 or not rets: raise Unsupported("AsyncBroker.task: expected one nested factory and return statements")
+    MK = mk_defs[0]; inner_defs = [n_ for n_ in MK.body if isinstance(n_, ast.FunctionDef)]
+    if len(inner_defs) != 1 or not MK.args.args: raise Unsupported("AsyncBroker.task: expected factory(inner_labels, ...) with one nested decorator")
+    INNER = inner_defs[0]; LP = MK.args.args[0].arg
+    for r_ in rets:
+        c = r_.value
+        if isinstance(c, ast.Call) and isinstance(c.func, ast.Call): c = c.func          # factory(...)(func): the no-parentheses form
+        if not (isinstance(c, ast.Call) and isinstance(c.func, ast.Name) and c.func.id == MK.name):
+            oblige(State(), f"task/return@{r_.lineno - tfd.lineno}: every form of the decorator goes through the one factory that attaches the labels  [C09]", BoolVal(False)); continue
+        e_ = next((k_.value for k_ in c.keywords if k_.arg == LP), c.args[0] if c.args else None)
+        st_ = State(); st_.env = {'self': PyObj(self_a)}; env_for(tfd, {tfd.args.kwarg.arg if tfd.args.kwarg else 'labels': lbl, 'task_name': fresh('task_name')}, st_); st_.pc.append(st_.heap.next > la)
+        if e_ is None: oblige(st_, f"task/call@{r_.lineno - tfd.lineno}: the declared labels are handed to the factory  [C09]", BoolVal(False)); continue
+        exl.ev(e_, st_, lambda s, v, r_=r_: (oblige(s, f"task/call@return#{rets.index(r_)}: the labels handed to the factory are exactly the labels declared in the call (`**labels`), for every calling form  [C09]", same_labels(s, v)), reach(s, f"task/reach@return#{rets.index(r_)}/{'t' if True else ''}{len(s.pc)}")), {'exc': lambda s, x: None})
+    dc = [n_ for n_ in own_nodes(INNER) if isinstance(n_, ast.Call) and ast.unparse(n_.func) == 'self.decorator_class']
+    if len(dc) != 1: raise Unsupported("AsyncBroker.task: expected exactly one construction of the decorated task")
+    kwd = {k_.arg: k_.value for k_ in dc[0].keywords}
+    for opt, nm in (('labels', LP), ('original_func', INNER.args.args[0].arg), ('broker', 'self')):
+        st_ = State(); vals = {LP: lbl, INNER.args.args[0].arg: fresh('func'), 'self': PyObj(self_a)}; st_.env = {}; env_for(INNER, vals, st_); st_.pc.append(st_.heap.next > la)
+        if opt not in kwd: oblige(st_, f"task/decorated task: `{opt}` is passed to the task object  [C09]", BoolVal(False)); continue
+        exl.ev(kwd[opt], st_, lambda s, v, opt=opt, nm=nm, vals=vals: (oblige(s, f"task/decorated task: {opt} is the factory's `{nm}` (the declared labels are stored on the task object as given)  [C09]",
+               same_labels(s, v) if opt == 'labels' else to_val(v) == to_val(vals[nm])), reach(s, f"task/reach@decorated:{opt}")), {'exc': lambda s, x: None})
+    rfd = src.func(REL, 'AsyncBroker.register_task'); rr = [n_ for n_ in own_nodes(rfd) if isinstance(n_, ast.Return)]
+    for r_ in rr:
+        c = r_.value; ok_shape = isinstance(c, ast.Call) and isinstance(c.func, ast.Call) and ast.unparse(c.func.func) == 'self.task' and len(c.args) == 1
+        st_ = State(); st_.env = {'self': PyObj(self_a)}; st_.pc.append(st_.heap.next > la)
+        if not ok_shape: oblige(st_, "register_task/return: registers through self.task(...)(func)  [C09]", BoolVal(False)); continue
+        env_for(rfd, {rfd.args.kwarg.arg if rfd.args.kwarg else 'labels': lbl, rfd.args.args[1].arg: fresh('func'), 'task_name': fresh('task_name')}, st_)
+        star = [k_.value for k_ in c.func.keywords if k_.arg is None]
+        named = [k_.arg for k_ in c.func.keywords if k_.arg not in (None, 'task_name')]
+        if len(star) != 1 or named: oblige(st_, "register_task/call: the declared labels are forwarded as `**labels` (and nothing else is injected)  [C09]", BoolVal(False)); continue
+        exl.ev(star[0], st_, lambda s, v: (oblige(s, "register_task/call: the labels forwarded to self.task are exactly the labels declared in the call  [C09]", same_labels(s, v)), reach(s, "register_task/reach@call")), {'exc': lambda s, x: None})
     return {}
